@@ -14,6 +14,7 @@ pub mod c08;
 pub mod c09;
 pub mod c10;
 pub mod c11;
+pub mod c12;
 pub mod c13;
 pub mod c14;
 pub mod c16;
@@ -31,7 +32,8 @@ pub struct PropDef {
 	pub replay: fn(&Ctx, &Path) -> Result<(), Failure>,
 	pub shards: fn(&str) -> u64,
 	pub watchdog_s: fn(&str) -> u64,
-	/// which binaries run shards: 0 = this harness, 1 = the shuttle binary (pdbs), 2 = both
+	/// which binaries run shards: 0 = this harness, 1 = the shuttle binary (pdbs), 2 = both,
+	/// 3 = the harness binary with syscall interposers (pdbv_io)
 	pub engine: u8,
 }
 
@@ -57,7 +59,7 @@ pub fn shuttle_def(id: &'static str, rule: &'static str, assumptions: &'static [
 }
 
 pub fn all() -> Vec<PropDef> {
-	vec![c01::def(), c02::def(), c03::def(), c04::def(), c06::def(), c07::def(), c08::def(), c09::def(), c10::def(), c11::def(), c13::def(), c14::def(), c16::def(), c17::def(), c18::def(), c19::def(), c20::def(), c05_def(), c15_def()]
+	vec![c01::def(), c02::def(), c03::def(), c04::def(), c06::def(), c07::def(), c08::def(), c09::def(), c10::def(), c11::def(), c12::def(), c13::def(), c14::def(), c16::def(), c17::def(), c18::def(), c19::def(), c20::def(), c05_def(), c15_def()]
 }
 
 #[derive(Clone, Debug, Deserialize)]
